@@ -9,6 +9,7 @@ import (
 	"errors"
 	"fmt"
 	"math"
+	"math/rand"
 
 	"github.com/willabides/rjson"
 )
@@ -223,64 +224,49 @@ func genHandlers(c *genCtx) error {
 			return err
 		}
 		setCurrent("handlers sweep")
-		members := map[int][]int{}
-		for b := 0; b < 256; b++ {
-			members[ss.Classes[b]] = append(members[ss.Classes[b]], b)
+		mem := classMembers(ss)
+		conts := [][]byte{[]byte("5"), []byte("0"), []byte(`"`)}
+		if c.thorough() {
+			conts = tokenCompletions(ss)
 		}
-		buf := make([]byte, 0, 256)
-		for si := range ss.States {
-			s := &ss.States[si]
+		parallelBases(sweepBases(ss, true, false, c.rng), c.st, c.rng, func(base sweepBase, rng *rand.Rand, st *genStats, w *sweepWorker) {
+			s := base.st
 			if s.Out != "run" {
-				continue
+				return
 			}
-			pre := toBytes(s.Inp)
-			f := firstNonWS(pre)
+			f := firstNonWS(base.pre)
 			var kinds []byte
 			switch {
 			case f == '[':
 				kinds = []byte{'A'}
 			case f == '{':
 				kinds = []byte{'O'}
-			case s.D == 0:
+			case s.D == 0 && !base.edge:
 				kinds = []byte{'A', 'O'} // top-level states: null, other types, whitespace
 			default:
-				continue
+				return
 			}
-			succ := map[int][]byte{}
-			for _, su := range s.Succ {
-				if su.Out == "run" {
-					succ[su.B] = toBytes(su.Comp)
+			o := sweepOpts{allBytes: c.thorough() && !base.edge, stop: !base.edge, rejectConts: conts, rejectAll: false}
+			if base.edge && !c.thorough() {
+				if rng.Intn(3) != 0 {
+					return // the quick tier takes a third of the transitions (which ones depends on the seed)
 				}
+				o.rejectConts = conts[:1]
 			}
-			for cl, ms := range members {
-				bs := []int{ms[0], ms[len(ms)-1]}
-				if c.thorough() {
-					bs = ms
-				} else if len(ms) > 2 {
-					bs = append(bs, ms[c.rng.Intn(len(ms))])
-				}
-				seen := map[int]bool{}
-				for _, b := range bs {
-					if seen[b] {
-						continue
-					}
-					seen[b] = true
-					for _, kind := range kinds {
-						buf = append(append(buf[:0], pre...), byte(b))
-						basic(kind, buf, "sw")
-						if comp, ok := succ[cl]; ok {
-							buf = append(buf, comp...)
-							basic(kind, buf, "sw")
-							if c.thorough() || b == ms[0] {
-								// mixed strategies on the completed document
-								runHandle(c.sw, &j, kind, buf, []answer{zero, exact, zero, exact}, exact, nil, c.st, "sw")
-								runHandle(c.sw, &j, kind, buf, []answer{exact, zero, exact, zero}, zero, used, c.st, "sw")
-							}
-						}
+			n := 0
+			forSweepInputs(ss, mem, base, o, rng, func(in []byte, viable bool) {
+				for _, kind := range kinds {
+					runHandle(c.sw, &w.j, kind, in, nil, zero, nil, st, "sw")
+					runHandle(c.sw, &w.j, kind, in, nil, exact, &w.used, st, "sw")
+					n++
+					if viable && (c.thorough() || n%8 == 0) {
+						// mixed strategies on (possibly completed) documents
+						runHandle(c.sw, &w.j, kind, in, []answer{zero, exact, zero, exact}, exact, nil, st, "sw")
+						runHandle(c.sw, &w.j, kind, in, []answer{exact, zero, exact, zero}, zero, &w.used, st, "sw")
 					}
 				}
-			}
-		}
+			})
+		})
 	}
 	// documents: random containers, corpus, walks
 	var docs [][]byte
